@@ -13,6 +13,7 @@ import pipelines as P  # noqa
 import sympool  # noqa
 import histories as H  # noqa
 from common import dump, exc_name, to_json  # noqa
+from connectome.engine.compiler import identity  # noqa
 
 
 def one(rnd):
@@ -53,6 +54,44 @@ def one(rnd):
     return rec
 
 
+def virtual_case(rnd):
+    """a layer without a source: names it inherits but does not define are served as raw inputs (virtual fields); inputs
+    may have any name (also `self`), and calls may pass them by keyword"""
+    from connectome import Transform
+    from connectome.interface.edges import Function
+    names = rnd.sample(['a', 'b', 'self', 'args', 'key', 'value'], rnd.randint(2, 4))
+    defined = rnd.sample(['y', 'z'], rnd.randint(1, 2))
+    srcs = {d: rnd.sample(names, rnd.randint(1, 2)) for d in defined}
+    layer = Transform(**{d: Function(P.sym(f's10{i}'), *srcs[d]) for i, d in enumerate(defined)}, __inherit__=True)
+    env = {n: 'IN:' + n for n in names}
+    rec = {'spec': [{'t': 'virtual', 'defined': srcs, 'inputs': names}], 'key': None, 'requests': [], 'singles': {}}
+    for f in names + defined:
+        try:
+            g = layer._compile(f)
+            if g is identity:          # a purely virtual name: the raw input itself
+                rec['singles'][f] = {'val': to_json(env[f])}
+                continue
+            kw = {x: env[x] for x in g.__signature__.parameters}
+            rec['singles'][f] = {'val': to_json(g(**kw))}
+        except BaseException as e:  # noqa
+            rec['singles'][f] = {'exc': exc_name(e)}
+    rec['single_failures'] = sorted(f for f in names + defined if 'exc' in rec['singles'][f])
+    good = [f for f in names + defined if 'val' in rec['singles'][f]]
+    for _ in range(4):
+        if len(good) < 2:
+            break
+        o = rnd.sample(good, rnd.randint(2, min(4, len(good))))
+        r = {'fields': o, 'how': 'compile+keywords'}
+        try:
+            g = layer._compile(o)
+            kw = {x: env[x] for x in g.__signature__.parameters}
+            r['val'] = to_json(g(**kw))
+        except BaseException as e:  # noqa
+            r['exc'] = exc_name(e)
+        rec['requests'].append(r)
+    return rec
+
+
 def main():
     ap = argparse.ArgumentParser()
     ap.add_argument('--seed', type=int, default=0)
@@ -60,7 +99,7 @@ def main():
     ap.add_argument('--out', required=True)
     a = ap.parse_args()
     rnd = random.Random(a.seed * 31 + 7)
-    dump({'cases': [one(rnd) for _ in range(a.n)]}, a.out)
+    dump({'cases': [one(rnd) if rnd.random() < 0.7 else virtual_case(rnd) for _ in range(a.n)]}, a.out)
 
 
 if __name__ == '__main__':
